@@ -219,7 +219,9 @@ func (gw *inclusiveGateway) NextAction(ctx context.Context, flow Flow) chan IAct
 		go gw.run(ctx, sender)
 	})
 
-	response := make(chan IAction)
+	// buffered: the node sends one action per request and must not block on a token
+	// whose flow is gone (cancelled)
+	response := make(chan IAction, 1)
 	gw.mch <- nextActionMessage{response: response, flow: flow}
 	return response
 }
